@@ -3287,6 +3287,10 @@ static void thread_main_sched_func(void *arg)
             ABTI_SCHED_REQ_REPLACE) {
             ABTI_ythread *p_waiter = p_sched->p_replace_waiter;
             ABTI_sched *p_new_sched = p_sched->p_replace_sched;
+            /* The replacement is being carried out: a user-owned p_sched
+             * survives and must not remember it as pending. */
+            p_sched->p_replace_sched = NULL;
+            p_sched->p_replace_waiter = NULL;
             /* Set this scheduler as a main scheduler */
             ABTD_atomic_relaxed_store_uint32(&p_new_sched->request, 0);
             p_new_sched->used = ABTI_SCHED_MAIN;
